@@ -1,6 +1,7 @@
 """C10 — event detection is sound, complete w.r.t. sampling, ordered and sharp."""
 import math
 import os
+import time
 
 from harness import core
 from harness.core import Outcome
@@ -105,14 +106,17 @@ OPEN = [
 ]
 RULE = ("correspondence: random listener lists (1-6 listeners out of 14 kinds) x random sample sequences (1 us to 100 s spacing, regular / irregular / backward, roots of the "
         "polynomials on and off the samples) x 6 iteration modes (dates, range, Ephem dates/step/stored points) x listener history (fresh / reused / abandoned generator) "
-        "x (one listener: handed over in a list / as a bare Listener object); "
+        "x (one listener: handed over in a list / as a bare Listener object); a quarter of the listeners share the components of their predecessor "
+        "(integer polynomials with the same roots: exactly simultaneous crossings, exact on both sides); "
         "node / apside / anomaly listeners with a frame of their own or created with frame=None (reading the stub state's own, settable, frame); "
         "TopocentricFrame.visibility with 0-7 additional listeners (with / without frame) given through listeners= and/or events= (True / list / single / none), with and without mask, "
         "plus the three kernel-checked regression witnesses of Witness/C10.lean replayed on the real method; "
         "a case is non-trivial when at least one event is emitted (visibility: and one sample is below the horizon); plus _bisect alone (result and number of propagations); "
         "plus LightListener.__call__ vs the translated formulas on state vectors -3..12 Earth radii behind the Earth, random and within 0 / 1 mm / 1 m / 1 km of the real umbra / penumbra boundary (exact +-1 agreement; non-trivial: in shadow); "
         "plus the real events_iterator (0-4 labels) / find_event (label, offset -1..7) over the real stream (non-trivial: something is returned). "
-        "oracle: every clause as a predicate on real orbits (see samples); tolerances from the property text")
+        "oracle: every clause as a predicate on real orbits (see samples); tolerances from the property text; families ordered cheap-first "
+        "(simultaneous crossings, steep-edged masks, large anomaly steps, backward, geosynchronous, numerical, ephemeris, analytical, visibility); when a proof / translator / "
+        "correspondence is broken in the quick tier the 10x sample is bounded (20 s per family, 150 s in total) and stops at the first failing input outside the open findings")
 
 US = None  # timedelta(microseconds=1), set by _setup
 
@@ -562,9 +566,78 @@ def gen_spec(rng, mode, kind, big=True):
             value = (M0 + 2 * math.pi / P * 3 * step + 0.05 - math.pi) % (2 * math.pi)
         sp["listeners"], sp["station"] = [["anomaly", value, sp_kind]], None
         sp["start_s"], sp["span_s"], sp["step_s"] = 0.0, 4 * P, step
+    elif mode == "simultaneous":
+        # several listeners whose watched quantities cross zero at the SAME instant: the same class twice (distinct objects),
+        # node <-> argument of latitude 0 / pi, apsis <-> true / mean / eccentric anomaly 0 / pi.  Every sign change must
+        # have its own event, carrying its own listener and label: nothing lost, nothing duplicated.
+        Ls = [["node"], ["node"], ["apside"], ["apside"], ["anomaly", 0.0, "aol"], ["anomaly", math.pi, "aol"],
+              ["anomaly", 0.0, "true"], ["anomaly", math.pi, "true"], ["anomaly", 0.0, "mean"], ["anomaly", math.pi, "eccentric"],
+              ["light", "umbra"], ["light", "umbra"]]
+        v = rng.uniform(0, 2 * math.pi)
+        ak = rng.choice(["true", "mean", "eccentric", "aol"])
+        Ls += [["anomaly", v, ak], ["anomaly", v, ak]]
+        rng.shuffle(Ls)
+        sp["listeners"], sp["station"] = Ls, None
+        sp["start_s"], sp["span_s"], sp["step_s"] = rng.uniform(-0.5, 0.5) * P, P * rng.uniform(1.05, 1.3), round(rng.uniform(P / 60, P / 25), 3)
+    elif mode == "steep-mask":
+        # a mask with two steep edges placed on the azimuth track of a pass: the satellite goes behind the rising edge while its
+        # elevation still increases, and reappears from the falling edge while it decreases — d(elevation - mask)/dt and the
+        # elevation rate have opposite signs at both crossings
+        sm = gen_steep_mask(rng, o)
+        if sm is None:
+            return gen_spec(rng, mode, kind, big)
+        sp["station"], start, span = sm
+        sp["listeners"] = [["mask"], ["signal"], ["max"]]
+        rng.shuffle(sp["listeners"])
+        step = round(rng.uniform(8, 25), 3)
+        if rng.random() < 0.3:
+            sp["start_s"], sp["span_s"], sp["step_s"] = start + span, -span, -step
+        else:
+            sp["start_s"], sp["span_s"], sp["step_s"] = start, span, step
     else:
         raise ValueError(mode)
     return sp
+
+
+def gen_steep_mask(rng, o):
+    """(station description with mask, start_s, span_s) for the orbit description `o`, or None when the candidate pass is
+    not suitable (azimuth not monotone / wraps through 0, culmination too low or too high)"""
+    import numpy as np
+    from datetime import timedelta
+    _setup()
+    orb = build_orbit(o)
+    P = kep_period(o)
+    tm = rng.uniform(0.2, 1.0) * P
+    g = orb.propagate(orb.date + timedelta(seconds=tm)).copy(frame="ITRF", form="spherical")
+    lat = max(-75.0, min(75.0, math.degrees(float(g.phi)) + rng.uniform(-3.5, 3.5)))
+    lon = math.degrees(float(g.theta)) + rng.uniform(-3.5, 3.5)
+    st = {"latlonalt": [lat, lon, rng.uniform(0, 1500)], "mask": None}
+    sta = build_station(st)
+    ts = np.arange(tm - 900.0, tm + 900.0, 10.0)
+    tr = [orb.propagate(orb.date + timedelta(seconds=float(t))).copy(frame=sta, form="spherical") for t in ts]
+    phi = np.array([float(q.phi) for q in tr])
+    az = np.array([float(q.theta) % (2 * math.pi) for q in tr])
+    vis = np.where(phi > 0.03)[0]
+    if len(vis) < 20 or vis[0] == 0 or vis[-1] == len(ts) - 1 or vis[-1] - vis[0] + 1 != len(vis):
+        return None
+    aa, pp = az[vis[0]:vis[-1] + 1], phi[vis[0]:vis[-1] + 1]
+    d = np.diff(aa)
+    if np.any(np.abs(d) > 1.0) or not (np.all(d > 0) or np.all(d < 0)):
+        return None
+    kmax = int(np.argmax(pp))
+    pmax = float(pp[kmax])
+    if pmax < 0.35 or pmax > 1.2 or kmax < 5 or kmax > len(pp) - 6:
+        return None
+    ku = int(np.argmin(np.abs(pp[:kmax] - 0.5 * pmax)))
+    kd = kmax + 1 + int(np.argmin(np.abs(pp[kmax + 1:] - 0.5 * pmax)))
+    lo, hi = sorted((float(aa[ku]), float(aa[kd])))
+    w = 0.02
+    if hi - lo < 0.3 or lo < 0.1 or hi > 2 * math.pi - 0.1:
+        return None
+    m0, H = 0.02, pmax + 0.25
+    st["mask"] = [[0.0, lo - w, lo + w, hi - w, hi + w, 2 * math.pi], [m0, m0, H, H, m0, m0]]
+    start = float(ts[vis[0]]) - 150.0
+    return st, start, float(ts[vis[-1]]) + 150.0 - start
 
 
 def run_spec(out, sp):
@@ -588,9 +661,17 @@ def run_spec(out, sp):
     start = orb.date + timedelta(seconds=sp["start_s"])
     kw = dict(start=start, stop=timedelta(seconds=sp["span_s"]), step=timedelta(seconds=sp["step_s"]))
     desc = {"spec": sp, "epoch": str(orb.date), "listeners": [lname(L) for L in Ls], "step": sp["step_s"]}
-    if mode in ("analytical", "backward", "anomaly-large-step", "geosync"):
-        fwd = mode != "backward"
-        stream, blocks = run_stream(out, orb, "analytical", Ls, kw, desc, forward=fwd, propagate=orb.propagate)
+    if mode in ("analytical", "backward", "anomaly-large-step", "geosync", "simultaneous", "steep-mask"):
+        fwd = sp["step_s"] > 0
+        stream, blocks = run_stream(out, orb, "analytical", Ls, kw, desc, forward=fwd, propagate=orb.propagate,
+                                    fam_prefix=mode + ":" if mode in ("simultaneous", "steep-mask") else "")
+        if mode == "steep-mask":
+            # the scenario is what it claims to be: mask events at which the elevation rate and the crossing direction disagree
+            for evs, _ in blocks:
+                for o in evs:
+                    if isinstance(o.event.listener, LS.StationMaskListener):
+                        q = o.copy(frame=sta, form="spherical")
+                        out.tally("steep-mask:" + ("rate-opposes-crossing" if (float(q.phi_dot) > 0) != (o.event.info == "AOS") else "rate-agrees"))
         if fwd:
             for L in Ls:
                 if isinstance(L, LS.NodeListener):
@@ -708,21 +789,47 @@ def check_visibility(out, orb, sta, kw, desc):
                  dict(desc, listeners_after=len(mine)), observed=len(b), expected=len(a))
 
 
+HUNT_FAMILY_CAP_S = 20.0     # widened oracle in the quick tier: time given to one family of inputs …
+HUNT_TOTAL_CAP_S = 150.0     # … and to all of them
+
+
 def oracle(ctx, widened):
+    """Families of inputs, cheap and discriminating ones first.  `widened` in the quick tier means that a proof, the
+    translator or the correspondence is broken and ONE concrete failing input is wanted: ~10x sample, but bounded time
+    per family and in total, and the search stops at the first failing input that is not a listed open finding.
+    (Thorough tier: the whole 10x sample, no early stop.)"""
     _setup()
     out = Outcome()
     rng = ctx.rng
     big = widened or ctx.thorough
+    hunt = widened and not ctx.thorough
     kinds = ["leo", "molniya", "meo", "gto", "leo"]
-    plan = [("analytical", 60 if big else 4, 0), ("backward", 20 if big else 2, 0), ("ephem", 30 if big else 3, 1),
-            ("numerical", 15 if big else 1, 0), ("visibility", 20 if big else 2, None), ("anomaly-large-step", 20 if big else 2, None),
-            ("geosync", 15 if big else 2, None)]
+    plan = [("simultaneous", 8 if big else 1, None), ("steep-mask", 8 if big else 1, None), ("anomaly-large-step", 20 if big else 2, None),
+            ("backward", 20 if big else 2, 0), ("geosync", 15 if big else 2, None), ("numerical", 15 if big else 1, 0),
+            ("ephem", 30 if big else 3, 1), ("analytical", 60 if big else 4, 0), ("visibility", 20 if big else 2, None)]
+    if hunt and any("visibility" in b for b in ctx.broken):
+        plan.sort(key=lambda x: x[0] != "visibility")     # the correspondence points at visibility: look there first
+    known = core.load_known()
+    t_all = time.time()
+    found = None
     for mode, n, off in plan:
+        t_fam = time.time()
         for i in range(n):
+            if hunt and (found is not None or time.time() - t_fam > HUNT_FAMILY_CAP_S or time.time() - t_all > HUNT_TOTAL_CAP_S):
+                out.tally(f"hunt-skipped:{mode}")
+                continue
             kind = "leo" if off is None else kinds[(i + off) % len(kinds)]
+            nf = len(out.failures)
             run_spec(out, gen_spec(rng, mode, kind, big))
-    out.sample({"orbit": "random LEO/MEO/GTO/Molniya Keplerian orbits; Kepler, KeplerNum, Ephem sources; 8-9 listeners at once",
-                "checked": "order, event iff sign change and guard, between samples, sign change within 5 us, label vs direction, closed-form node/apsis/anomaly times (1 ms), conical shadow (0.01 s / 0.5 s), visibility stream"})
+            if hunt and found is None:
+                found = next((f["family"] for f in out.failures[nf:] if core.match_known(ID, f, known) is None), None)
+    if hunt:
+        out.notes.append(f"widened oracle (quick tier): families in the order {[m for m, _, _ in plan]}, {HUNT_FAMILY_CAP_S:.0f} s per family, "
+                         f"{HUNT_TOTAL_CAP_S:.0f} s in total, stopped at the first failing input outside the open findings: {found}")
+    out.sample({"orbit": "random LEO/MEO/GTO/Molniya Keplerian orbits; Kepler, KeplerNum, Ephem sources; 8-14 listeners at once, incl. listeners with exactly simultaneous "
+                         "crossings (same class twice, node / argument of latitude, apsis / anomalies) and station masks with steep edges on the azimuth track",
+                "checked": "order, event iff sign change and guard (one event per listener, carrying that listener), between samples, sign change within 5 us, label vs direction of the "
+                           "crossing of the listener's own watched quantity, closed-form node/apsis/anomaly times (1 ms), conical shadow (0.01 s / 0.5 s), visibility stream"})
     return out
 
 
@@ -1121,6 +1228,7 @@ def extract(ctx):
 
 ANOM_UNIT = 1 << 20
 OWN = "own-frame"     # key of `chans` holding the Key of the frame the stub states are produced in
+n_shared = [0]   # listeners generated with the components of their predecessor (evidence only)
 FRAMELESS = ("node", "apside", "anomaly:true", "anomaly:mean", "anomaly:eccentric", "anomaly:aol")   # classes whose `frame` defaults to None
 KINDS = ["node", "apside", "signal", "mask", "max", "radvel0", "radvel1", "umbra", "penumbra", "terminator",
          "anomaly:true", "anomaly:mean", "anomaly:eccentric", "anomaly:aol"]
@@ -1365,6 +1473,16 @@ def gen_case(rng):
         C = gen_poly(rng, lo, hi, ts, 2)
         D = gen_poly(rng, lo, hi, ts, 1)
         E = rng.choice([0, 0, 1, -2, 1000])
+        prev = next((q for q in reversed(specs) if not q[0].endswith("@")), None)
+        if prev is not None and rng.random() < 0.25 and prev[0].startswith("anomaly") == kind.startswith("anomaly"):
+            # same components as the previous listener (half of the time the same class too): their watched quantities share
+            # their roots, the crossings are exactly simultaneous and bisect through the same dates
+            A, B, C, D = prev[1], prev[2], prev[3], prev[4]
+            if rng.random() < 0.5:
+                kind, E = prev[0], prev[5]
+            specs.append((kind, A, B, C, D, E))
+            n_shared[0] += 1
+            continue
         if kind in FRAMELESS and rng.random() < 0.4:
             # created with frame=None: reads the states in their own frame
             if kind.startswith("anomaly"):
@@ -1727,6 +1845,7 @@ def correspondence(ctx):
             out.fail("light-value", "LightListener.__call__ differs from the formulas translated from its source (Generated/LightSrc)",
                      {"light": True, "type": typ, "date": str(o.date), "pos": [float(x) for x in o[:3]], "frame": str(o.frame), "inputs": list(inp), "line": line},
                      observed=real, expected=mv)
+    out.tally(f"listeners-sharing-components={n_shared[0]}")
     own0 = ([0], [0], [0], [0])
     for (b, e, P), m in zip(bis, model[len(cases):]):
         Ls, chans = env.build([("umbra", P, [0], [0], [0], 0)], own0)
